@@ -10,7 +10,8 @@ from .symex import Interp
 
 
 class Config:
-    def __init__(self, weights="none", ignore=False, rma="nan", ndim=1, coords=True, N=False, dims=True):
+    def __init__(self, weights="none", ignore=False, rma="nan", ndim=1, coords=True, N=False, dims=True, tracing=False):
+        self.tracing = tracing  # the per-call timing diagnostics of the index-cube aggregates are switched on
         self.weights = weights  # none | array | scalar
         self.ignore = ignore
         self.rma = rma  # nan | tuple | zero | plain
@@ -20,7 +21,7 @@ class Config:
         self.dims = dims  # cube has dimensions
 
     def key(self):
-        return (self.weights, self.ignore, self.rma, self.ndim, self.coords, self.N, self.dims)
+        return (self.weights, self.ignore, self.rma, self.ndim, self.coords, self.N, self.dims, self.tracing)
 
     def __repr__(self):
         return "weights=%s ignore_missing=%s return_missing_as=%s ndim=%d coords=%s" % (self.weights, self.ignore, self.rma, self.ndim, self.coords)
@@ -75,13 +76,13 @@ def make_oracle(cfg, fields=None, selfname="self"):
             if r == "validity" and cfg.weights == "none" and x.op != "param":
                 return None
             if r in ("tracing",):
-                return pos
+                return pos != cfg.tracing
             return None
         r = root(t)
         if r == "ignore_missing":
             return cfg.ignore
         if r in ("tracing",):
-            return False
+            return cfg.tracing
         if r == "dims" and t.op == "attr" and t.args[0] == tm.param("cube"):
             return cfg.dims
         if t.op == "attr" and t.args[1] == "shape":
